@@ -118,7 +118,36 @@ def eval_config(ctx, cfg, with_model=True):
     return first
 
 
+def shared_options(ctx):
+    """one SolverOptions object used for a fixed-step quiet run and then, with adaptive switched on, for an adaptive one
+    (as a script that reuses its options does): the second run still grows its step to the configured dt_max, and a run
+    never changes the options it was given"""
+    import dataclasses
+
+    first = None
+    dev = zoo.make_device("bar_hole", ctx.rng, smooth=2, max_edge_length=1.0)
+    opts = runs.options(solve_time=0.01, dt_init=1e-3, dt_max=0.05, adaptive=False, adaptive_window=3, terminal_psi=None, save_every=2)
+    before = dataclasses.asdict(opts)
+    tdgl.solve(dev, opts)
+    changed = {k: (before[k], v) for k, v in dataclasses.asdict(opts).items() if v != before[k] and k != "output_file"}
+    opts.adaptive = True
+    opts.solve_time = 0.5
+    sol = tdgl.solve(dev, opts)
+    dts = np.asarray(sol.dynamics.dt, dtype=float)
+    ctx.case(("shared-options",), nontrivial=True)
+    ctx.count("shared_options_sequences")
+    if changed:
+        ctx.fail("options-mutated-by-solve", f"a fixed-step run changed the options object it was given: {changed}", dict(changed={k: [repr(a), repr(b)] for k, (a, b) in changed.items()}))
+        first = dict(key="options-mutated-by-solve", what=str(changed))
+    if not (len(dts) > 6 and np.all(dts[5:] == 0.05)):
+        rp = dict(dts=dts[:8].tolist(), dt_max_now=repr(opts.dt_max))
+        ctx.fail("dt-does-not-grow:shared-options", f"adaptive quiet run after a fixed-step run with the same options object: the step does not reach dt_max = 0.05 ({dts[:8].tolist()}); options.dt_max is now {opts.dt_max!r}", rp)
+        first = first or dict(key="dt-does-not-grow:shared-options", what="dt does not grow", **rp)
+    return first
+
+
 def run(ctx):
+    shared_options(ctx)
     for cfg in configs(ctx.quick):
         eval_config(ctx, cfg)
 
